@@ -9,12 +9,15 @@ cp $WT/SEEDED/patch.diff $WT/SEEDED/demo.py $WT/SEEDED/README.md $OUT/ 2>/dev/nu
 sed -i "s#$WT#/repo#g" $OUT/demo.py
 echo "== 1. patch applies to /repo?"
 git -C /repo apply --check $OUT/patch.diff && echo yes || { echo NO; exit 1; }
+# the worktree is brought to exactly HEAD + patch.diff (git stash is shared
+# between worktrees of one repository and must not be used here)
+(cd $WT && git checkout -q -- sc3 && git apply SEEDED/patch.diff) || { echo "cannot re-apply patch in worktree"; exit 1; }
 echo "== 2. baseline suite in the worktree (change applied)"
 (cd $WT && git diff --stat -- sc3 | tail -1; timeout 900 /venv/bin/python -m pytest -q -p no:cacheprovider --timeout=900 --continue-on-collection-errors 2>&1 | tail -1)
 echo "== 3. demo with the change (expect failure)"
 (cd $WT && timeout 120 /venv/bin/python SEEDED/demo.py >/tmp/demo_with.log 2>&1; echo "exit $?"; tail -2 /tmp/demo_with.log)
 echo "== 4. demo without the change (expect pass)"
-(cd $WT && git stash -q && timeout 120 /venv/bin/python SEEDED/demo.py >/tmp/demo_without.log 2>&1; echo "exit $?"; tail -1 /tmp/demo_without.log; git stash pop -q)
+(cd $WT && git checkout -q -- sc3 && timeout 120 /venv/bin/python SEEDED/demo.py >/tmp/demo_without.log 2>&1; echo "exit $?"; tail -1 /tmp/demo_without.log; git apply SEEDED/patch.diff)
 echo "== 5. checks against the change (scratch copy of /repo with the patch applied)"
 SCR=/tmp/sc3-seeded-$$
 rm -rf $SCR; mkdir -p $SCR
